@@ -41,6 +41,9 @@ THEOREMS = [
     "PyTrie.Props.NonVacuity2.bin_history_witness",
     "PyTrie.Props.NonVacuity2.bin_history_get_witness",
     "PyTrie.Props.NonVacuity2.bops_reach",
+    "PyTrie.Props.Raw.binT_agrees",
+    "PyTrie.Props.Raw.bin_refused_saves_nothing",
+    "PyTrie.Props.Raw.bin_db_add_only",
 ]
 RULE = ("histories of set / delete / delete_subtrie (method and dict syntax) over fixed-length and variable-length key pools "
         "with prefix-related keys, keys differing at every bit position of a byte, repeated values; after every call the outcome "
